@@ -120,6 +120,8 @@ func configsFor(part string, thorough bool) []*xcfg {
 				CCMenu: ccMenu, Script: []string{"T1", "H1", "C1:2", "H1", "S1", "P1", "H1"}},
 			{Name: "cc-transfer-dev", Voters: v3, Joiners: []uint64{4}, Fifo: true, LazyApply: true, MaxDev: pick(2, 3), MaxTerm: 6, MaxIndex: 10, ConfChanges: 1, Timeouts: 1, Transfers: 1, Drops: 2,
 				CCMenu: ccMenu, Script: []string{"T1", "H1", "C1:0", "L1>2", "H1", "H2", "J4", "P2", "H2"}},
+			{Name: "cc-after-snapshot-lagging-dev", Voters: v3, Joiners: []uint64{4}, Fifo: true, MaxDev: 2, MaxTerm: 6, MaxIndex: 12, Partitions: 2, Reports: 1, Timeouts: 1,
+				CCMenu: ccMenu, Script: []string{"T1", "H1", "P1", "S1", "C1:0", "H1", "P1", "H1", "H1", "J4", "H1"}},
 			{Name: "cc-ordered-dev", Voters: v3, Joiners: []uint64{4}, Ordered: true, Fifo: true, LazyApply: true, MaxDev: pick(2, 3), MaxTerm: 5, MaxIndex: 10, ConfChanges: 2, Timeouts: 1, Drops: 2,
 				CCMenu: ccMenu, Script: []string{"T1", "H1", "C1:1", "C2:2", "H1", "J4", "H1"}},
 		}
@@ -143,6 +145,10 @@ func configsFor(part string, thorough bool) []*xcfg {
 				CCMenu: ccMenu, Script: []string{"T1", "H1", "P1", "C1:0", "H1", "H1", "P4", "H1"}},
 			{Name: "2v+w+nv-dev", Voters: []uint64{1, 2}, Witnesses: []uint64{3}, NonVotings: []uint64{4}, Fifo: true, MaxDev: pick(2, 3), MaxTerm: 6, MaxIndex: 10, Timeouts: 2, Drops: 3, Proposals: 2, Snapshots: 1, Crashes: 1, Reads: 1, Reports: 1,
 				Script: []string{"T1", "H1", "P1", "S1", "P2", "H1", "R4", "H1"}},
+			{Name: "3v+2nv-read-partition-dev", Voters: v3, NonVotings: []uint64{4, 5}, Fifo: true, MaxDev: 2, MaxTerm: 6, MaxIndex: 10, Reads: 1, Partitions: 2, Heartbeats: 1,
+				Script: []string{"T1", "H1", "P1", "T2", "H2", "P2", "H2", "R1", "H1", "R4", "H1", "H1"}},
+			{Name: "2v+w-read-partition-dev", Voters: []uint64{1, 2}, Witnesses: []uint64{3}, NonVotings: []uint64{4}, Fifo: true, MaxDev: 2, MaxTerm: 6, MaxIndex: 10, Reads: 1, Partitions: 2, Heartbeats: 1, Timeouts: 1,
+				Script: []string{"T1", "H1", "P1", "R1", "H1", "T2", "H2", "P2", "H2", "R1", "H1", "R4", "H1"}},
 			{Name: "3v-remove-dev", Voters: v3, Fifo: true, LazyApply: true, MaxDev: pick(2, 3), MaxTerm: 6, MaxIndex: 10, ConfChanges: 1, Timeouts: 3, Drops: 2, Proposals: 1,
 				CCMenu: ccMenu, Script: []string{"T1", "H1", "C1:2", "H1", "H1", "T2", "P1", "H1"}},
 		}
